@@ -1682,7 +1682,14 @@ def _overlap_collision_time(
 ) -> int:
     # Tracks the first used moment index for each qubit in c2.
     # Tracks the complementary last used moment index for each qubit in c1.
-    seen_times: dict[cirq.Qid, int] = {}
+    # Measurement and control keys are tracked like qubits: operations that share a key must not
+    # slide past (or into the same moment as) each other either.
+    seen_times: dict[Any, int] = {}
+
+    def labels(op: cirq.Operation) -> Iterator[Any]:
+        yield from op.qubits
+        yield from protocols.measurement_key_objs(op)
+        yield from protocols.control_keys(op)
 
     # Start scanning from end of first and start of second.
     if align == Alignment.LEFT:
@@ -1698,7 +1705,7 @@ def _overlap_collision_time(
     while t < upper_bound:
         if t < len(c2):
             for op in c2[t]:
-                for q in op.qubits:
+                for q in labels(op):
                     # Record time but check if qubit already seen on other side.
                     k2 = seen_times.setdefault(q, t)
                     if k2 < 0:
@@ -1706,7 +1713,7 @@ def _overlap_collision_time(
                         upper_bound = min(upper_bound, t + ~k2)
         if t < len(c1):
             for op in c1[-1 - t]:
-                for q in op.qubits:
+                for q in labels(op):
                     # Record time but check if qubit already seen on other side.
                     # Note t is bitwise complemented to pack in left-vs-right origin data.
                     k2 = seen_times.setdefault(q, ~t)
